@@ -235,6 +235,9 @@ def check_multi(case, out):
             out.fail(core.exc_bucket(exc, 'main-multi'), core.exc_detail(exc))
             return
         want = [expected_text(t, eol, fix) for t in texts]
+        # what goes to one destination ends with one line feed (without --eol), not one per input: the output of the
+        # normaliser, normalised again, must not change
+        both = ''.join(want) if eol else ''.join(w[:-1] for w in want) + '\n'
         if mode == 'inplace':
             got = [open(p_, encoding='ascii', newline='').read() for p_ in paths]
             for i in range(2):
@@ -245,12 +248,16 @@ def check_multi(case, out):
         elif mode == 'outfile':
             # the named output receives what standard output would have received
             got = open(dst, encoding='ascii', newline='').read() if os.path.exists(dst) else ''
-            if got != ''.join(want):
+            if got != both:
                 out.fail('multi-file:outfile', 'the output file has %d characters, the two normalisations together %d (the second alone %d)'
-                         % (len(got), len(''.join(want)), len(want[1])))
+                         % (len(got), len(both), len(want[1])))
         else:
-            if so != ''.join(want):
-                out.fail('multi-file:stdout', 'stdout has %d characters, the two normalisations together %d' % (len(so), len(''.join(want))))
+            if so != both:
+                out.fail('multi-file:stdout', 'stdout has %d characters, the two normalisations together %d' % (len(so), len(both)))
+        if mode != 'inplace' and not out.failures:
+            again, exc2, _ = normalise(both, eol, fix, 'stdout', wd, 'both.x12')
+            if exc2 is None and again != both:
+                out.fail('multi-file:not-idempotent', 'the combined output has %d characters, normalised again %d' % (len(both), len(again or '')))
 
 
 def strategy(tier):
